@@ -127,6 +127,7 @@ def check(case, ctx):
             return np.log(real)
     lin = gen_fgg.is_linear(spec)
     seen = set()
+    cache = {}
     for kind, method in case['configs']:
         if (kind, method) in seen or (method == 'linear' and not lin): continue
         seen.add((kind, method))
@@ -182,7 +183,16 @@ def check(case, ctx):
                 if kind == 'log': sel &= (np.asarray(t['weights'], dtype=float) > 0)
                 if not sel.any(): continue
                 sc = float(np.max(np.abs(d1[sel])))
-                ok = bool(np.all(np.abs(d1[sel] - d2[sel]) <= 1e-6 * np.abs(d1[sel]) + 1e-8 * (1 + sc)))
+                allow = 0.0
+                if fp is not None:
+                    # both runs are only within the derived bound B of x*; the gradient moves by at most its sensitivity to that
+                    key = ('sens', kind)
+                    if key not in cache:
+                        scale_all = max([float(v.abs().max()) for v in fp['x'].values() if v.numel()] + [0.0])
+                        Bk = (1e-11 / (1 - rho)) if kind == 'real' else scale_all * math.expm1(1e-11) / (1 - rho)
+                        cache[key] = admit.gradient_sensitivity(fp, start, torch.ones_like(fp['x'][start]), list(spec['terminals']), 4 * Bk + 1e-13 * scale_all, log_domain=(kind == 'log'))
+                    allow = 8 * cache[key][n][sel]
+                ok = bool(np.all(np.abs(d1[sel] - d2[sel]) <= 1e-6 * np.abs(d1[sel]) + 1e-8 * (1 + sc) + allow))
                 ctx.require(ok, 'gradient-presentation-dependent', f'[{cfg}] d/d{n}: original {d1.tolist()} transformed (mapped back) {d2.tolist()}', config=cfg, sr=kind)
     # viterbi derivation weight
     vref = reference('viterbi')
